@@ -2,8 +2,8 @@
    Statements only; proofs are `exact`/`apply` of lemmas in SR.v, ExprSyntax.v, LexNum.v, or
    vm_compute certificates over the table regenerated from parser.y (gen/Gen_OpTable.v). *)
 From Coq Require Import List String Bool Arith ZArith Decimal.
-From Utap Require Import SR OpTableRef ExprSyntax LexNum.
-From Utap.gen Require Import Gen_OpTable.
+From Utap Require Import SR OpTableRef ExprSyntax LexNum CommentLex LexModel LexProofs.
+From Utap.gen Require Import Gen_OpTable Gen_LexRules.
 Import ListNotations.
 
 (* 1. Rendering any tree with only the parentheses the (regenerated) table requires and parsing the
@@ -63,3 +63,33 @@ Example C02_example :
     = [TAtom _ _ _ _ 0; TOp _ _ _ _ B_T_PLUS; TAtom _ _ _ _ 1; TOp _ _ _ _ B_T_MULT; TAtom _ _ _ _ 2]
   /\ parseG (flatG false (Bin _ _ _ _ B_T_MULT (Bin _ _ _ _ B_T_PLUS a b) c)) = Some (Bin _ _ _ _ B_T_MULT (Bin _ _ _ _ B_T_PLUS a b) c).
 Proof. vm_compute. repeat split; reflexivity. Qed.
+
+(* ---- the scanner: which characters make which token (LexModel.v over the rules regenerated from lexer.l) ---- *)
+(* the rules of lexer.l that are not literals are the ones the model implements, the character classes are the modelled ones, and the
+   three ties between rules that can match the same text are decided as in the model: every literal rule stands before the
+   identifier rule (A, U, location ... are tokens, not identifiers) and before the catch-all dot, and the rule for naturals before the
+   rule for floating-point numbers *)
+Theorem C02_scanner_rules_are_the_modelled_ones :
+  gen_other_rules = reference_other_rules /\ gen_defs = reference_defs /\
+  gen_literals_before_identifier = true /\ gen_literals_before_dot = true /\ gen_num_before_float = true.
+Proof. repeat split; reflexivity. Qed.
+Print Assumptions C02_scanner_rules_are_the_modelled_ones.
+(* no literal contains a separator or is empty, and every literal rule is reachable: followed by a blank its text gives its own
+   token (no other rule shadows it) *)
+Theorem C02_every_literal_gives_its_token : table_ok gen_literals = true.
+Proof. vm_compute. reflexivity. Qed.
+Print Assumptions C02_every_literal_gives_its_token.
+(* maximal munch: whatever the table, the lexeme at the head of a text is at least as long as every literal that starts the text
+   (x<=y is never read as x < = y), and a nonempty text always gives a nonempty lexeme *)
+Theorem C02_scanner_maximal_munch : forall literals s t tok,
+  In (t, tok) literals -> starts (list_ascii_of_string t) s = true -> List.length (list_ascii_of_string t) <= lexeme_len (lex1 literals s).
+Proof. exact lex1_maximal_munch. Qed.
+Print Assumptions C02_scanner_maximal_munch.
+Theorem C02_scanner_progress : forall literals c r, 0 < lexeme_len (lex1 literals (c :: r)).
+Proof. exact lex1_progress. Qed.
+Print Assumptions C02_scanner_progress.
+Example C02_scanner_example :
+  lex gen_literals 40 (list_ascii_of_string "a<=b--c /* x */ A[] 1.5e3") =
+  Some [(KIdent, list_ascii_of_string "a"); (KLit "T_LEQ", list_ascii_of_string "<="); (KIdent, list_ascii_of_string "b"); (KLit "T_DECREMENT", list_ascii_of_string "--");
+        (KIdent, list_ascii_of_string "c"); (KLit "T_AG", list_ascii_of_string "A[]"); (KFloat, list_ascii_of_string "1.5e3")].
+Proof. vm_compute. reflexivity. Qed.
